@@ -21,6 +21,7 @@ type SolveResult struct {
 	Output  string
 	Cached  bool
 	All     map[string]string // per-solver status
+	cx      *Counterexample
 }
 
 type solverSpec struct {
